@@ -200,7 +200,9 @@ def _check_make_args_unique(run: Run, ctx, m) -> None:
     arg = ("param", mau.pos_params[0])
     ok = rt[0] == "tvisit" and rt[2] == ("app", ("global", "copy.deepcopy"), (arg,), ())
     run.check(ok, "C02.R2", mau, mau.node, "make_args_unique renames inside a deep copy of the lambda", f"make_args_unique returns {show(rt)[:120]}: the caller's lambda is modified in place or shares nodes with the renamed copy", "replace_args().visit(copy.deepcopy(a))", show(rt))
-    classes = [c for c in m.classes.values() if c.parent_func is mau and m.is_transformer(c)]
+    from ..lib import used_visitor
+
+    classes = [used_visitor(m, ctx, mau, True)]
     if len(classes) != 1:
         raise AnalysisError("make_args_unique no longer contains one transformer")
     rc = classes[0]
@@ -406,6 +408,11 @@ def _has_evidence(atoms, key: str) -> bool:
 
 def _check_call_stack(run: Run, ctx, m) -> None:
     st = m.find_class("argument_stack", in_module="func_adl.ast.call_stack")
+    gen = [f for f in m.module("func_adl.ast.call_stack").functions.values() if f.name == "stack_frame"]
+    if gen:
+        _check_stack_frame_generator(run, ctx, gen[0])
+        _check_stack_methods(run, ctx, m, st)
+        return
     sf = m.find_class("stack_frame", in_module="func_adl.ast.call_stack")
     for need in ("push_stack_frame", "pop_stack_frame", "define_name", "lookup_name"):
         if need not in st.methods:
@@ -425,6 +432,28 @@ def _check_call_stack(run: Run, ctx, m) -> None:
                 run.check(t == ("attr", ("param", meth.pos_params[0]), "_arg_stack"), "C02.R3b", meth, stmt_of(c), f"{c0} acts on the stack handed to stack_frame", f"{c0} acts on {show(t)}")
     ex_rt = strip_sites(ctx.analysis(ex).return_term())
     run.check(ex_rt == ("const", None) or ex_rt == ("const", False), "C02.R3b", ex, ex.node, "__exit__ does not swallow exceptions", f"__exit__ returns {show(ex_rt)}: exceptions inside a frame are suppressed")
+    _check_stack_methods(run, ctx, m, st)
+
+
+def _check_stack_frame_generator(run: Run, ctx, fi: FuncInfo) -> None:
+    """@contextmanager form of stack_frame: push; try: yield; finally: pop."""
+    is_cm = any(d.split(".")[-1] == "contextmanager" for d in fi.decorators)
+    run.check(is_cm, "C02.R3b", fi, fi.node, "stack_frame is a context manager", "stack_frame is neither a class with __enter__/__exit__ nor a @contextmanager generator")
+    pushes = [c for c in calls_in(fi) if isinstance(c.func, ast.Attribute) and c.func.attr == "push_stack_frame"]
+    pops = [c for c in calls_in(fi) if isinstance(c.func, ast.Attribute) and c.func.attr == "pop_stack_frame"]
+    ys = [n for n in own_nodes(fi) if isinstance(n, ast.Yield)]
+    ok = len(pushes) == 1 and len(pops) == 1 and len(ys) == 1
+    in_finally = False
+    if ok:
+        from ..model import ancestors
+
+        for a in ancestors(pops[0]):
+            if isinstance(a, ast.Try) and any(pops[0] is x or any(pops[0] is y for y in ast.walk(x)) for x in a.finalbody) and any(ys[0] is y for b in a.body for y in ast.walk(b)):
+                in_finally = True
+    run.check(ok and in_finally, "C02.R3b", fi, fi.node, "frame pushed before the yield and popped in a finally around it", "the generator form of stack_frame does not pop the frame in a `finally`: when an exception (e.g. the permitted FuncADLIndexError) leaves the with-block the frame stays on the stack and later queries on the same simplifier see stale bindings", "push; try: yield; finally: pop")
+
+
+def _check_stack_methods(run: Run, ctx, m, st) -> None:
     push, pop, define = st.methods["push_stack_frame"], st.methods["pop_stack_frame"], st.methods["define_name"]
     selfp = ("param", push.pos_params[0])
     frames = ("attr", selfp, "_arg_transformer")
@@ -448,7 +477,9 @@ def _check_call_stack(run: Run, ctx, m) -> None:
     if len(stores) == 1:
         tg = stores[0].targets[0]
         ok = strip_sites(fd.term_of(tg.value)) == ("index", ("attr", ("param", define.pos_params[0]), "_arg_transformer"), -1) and strip_sites(fd.term_of(tg.slice)) == ("param", define.pos_params[1]) and strip_sites(fd.term_of(stores[0].value)) == ("param", define.pos_params[2])
-    run.check(ok, "C02.R3b", define, define.node, "define_name writes frames[-1][name] = val", "define_name does not define the name in the innermost frame")
+    if ok:
+        ok = fd.cfg.postdominates(fd.cfg.node_of(stores[0]), fd.cfg.entry)
+    run.check(ok, "C02.R3b", define, define.node, "define_name writes frames[-1][name] = val, unconditionally", "define_name does not (always) define the name in the innermost frame: a definition that is skipped for some values (e.g. a name bound to itself) no longer shadows an outer binding of the same name")
 
 
 def _check_shadow_lambda(run: Run, ctx, m, vl: FuncInfo, prop: str) -> None:
